@@ -24,8 +24,8 @@ PROBES = [f"residue_{i}" for i in range(16)] + ["custom_iv", "multi_frame_stream
                                                 "session_population", "verify_false_no_hmac", "large_packet", "large_packet_multiple_of_64k",
                                                 "keys_from_seed", "keys_from_metadata", "zero_iv", "frame_length_256"]
 RULE = ("seeded plans: 6-14 packets with plaintext length 0..80 (every residue mod 16 is drawn; 30% of the plans add one large "
-        "packet at a boundary length up to 256 KiB with a sampled fault set), random 16-byte AES/HMAC "
-        "keys and IVs (default IV half of the time); per packet EVERY single-bit flip of ciphertext||signature, EVERY "
+        "packet of 81-700 bytes or at a boundary length (frame length 256, 64 KiB multiples, ...) up to 256 KiB with a sampled fault set), random 16-byte AES/HMAC "
+        "keys and IVs (default IV half of the time; all-zero / all-ones IVs among the given ones); session keys from a seed and from the metadata of one beacon id; per packet EVERY single-bit flip of ciphertext||signature, EVERY "
         "truncation of ciphertext and of signature, 8 random wrong HMAC keys, missing key (None, b''), and for one packet "
         "per plan every single-bit change of the HMAC key; 1-5 packets framed into client streams and single-packet "
         "server streams are split back. 15% full sessions. non-trivial = every exchange plan (each enumerates its fault "
